@@ -13,6 +13,8 @@
 #include <mutex>
 #include <sys/mman.h>
 #include <pthread.h>
+#include <sched.h>
+#include <atomic>
 #include <cerrno>
 
 extern "C" int m_set_memhook(void *(*_malloc)(size_t), void *(*_calloc)(size_t, size_t), void (*_free)(void *));
@@ -40,10 +42,17 @@ struct State {
 
 inline State &st() { static State s; return s; }
 // the library calls the memhook from its task pool threads as well (a finished task's record is released by the worker): one lock for the table
-inline std::recursive_mutex &mtx() { static std::recursive_mutex m; return m; }
+// (a recursive spin lock on an atomic owner word, not a pthread mutex: in the thread pool harness the pthread mutex calls of the whole binary are interposed by
+// the cooperative scheduler, which must not see -- or judge -- the harness' own locks; holders never reach a scheduling point while inside the allocator)
+struct SpinLock {
+    std::atomic<unsigned long> owner{0}; int depth = 0;
+    void lock() { const unsigned long me = (unsigned long)pthread_self(); if (owner.load(std::memory_order_relaxed) == me) { depth++; return; } unsigned long none = 0; while (!owner.compare_exchange_weak(none, me, std::memory_order_acquire)) { none = 0; sched_yield(); } depth = 1; }
+    void unlock() { if (--depth == 0) owner.store(0, std::memory_order_release); }
+};
+inline SpinLock &mtx() { static SpinLock m; return m; }
 
 inline void *raw_alloc(size_t sz, bool zero) {
-    std::lock_guard<std::recursive_mutex> lk(mtx());
+    std::lock_guard<SpinLock> lk(mtx());
     State &s = st();
     if (s.fail_at >= 0 && (long)s.n_alloc == s.fail_at) { s.n_alloc++; return nullptr; }
     if (s.fail_countdown > 0 && pthread_equal(s.fail_thread, pthread_self()) && --s.fail_countdown == 0) { s.fail_fired = true; errno = ENOMEM; return nullptr; }
@@ -66,11 +75,11 @@ inline void *raw_alloc(size_t sz, bool zero) {
     return p;
 }
 
-inline void *t_malloc(size_t sz) { { std::lock_guard<std::recursive_mutex> lk(mtx()); if (st().fail_next_malloc) { st().fail_next_malloc = false; return nullptr; } } return raw_alloc(sz, false); }
+inline void *t_malloc(size_t sz) { { std::lock_guard<SpinLock> lk(mtx()); if (st().fail_next_malloc) { st().fail_next_malloc = false; return nullptr; } } return raw_alloc(sz, false); }
 inline void *t_calloc(size_t n, size_t sz) { return raw_alloc(n * sz, true); }
 inline void t_free(void *p) {
     if (!p) return;
-    std::lock_guard<std::recursive_mutex> lk(mtx());
+    std::lock_guard<SpinLock> lk(mtx());
     State &s = st();
     auto it = s.live.find(p);
     if (it == s.live.end()) {
@@ -88,8 +97,8 @@ inline void t_free(void *p) {
     else if (s.misaligned) free((char *)p - 16); else free(p);
 }
 
-inline void arm_refusal(long k) { std::lock_guard<std::recursive_mutex> lk(mtx()); st().fail_countdown = k; st().fail_thread = pthread_self(); st().fail_fired = false; }
-inline bool disarm_refusal() { std::lock_guard<std::recursive_mutex> lk(mtx()); st().fail_countdown = 0; return st().fail_fired; }
+inline void arm_refusal(long k) { std::lock_guard<SpinLock> lk(mtx()); st().fail_countdown = k; st().fail_thread = pthread_self(); st().fail_fired = false; }
+inline bool disarm_refusal() { std::lock_guard<SpinLock> lk(mtx()); st().fail_countdown = 0; return st().fail_fired; }
 inline void install() { m_set_memhook(t_malloc, t_calloc, t_free); }
 inline size_t live_count() { return st().live.size(); }
 inline bool is_live(void *p) { return st().live.count(p) != 0; }
